@@ -72,6 +72,16 @@ class Gen:
         c = r.random()
         a = self.int_expr(depth - 1, temps)
         b = self.int_expr(depth - 1, temps)
+        if self.externals and r.random() < 0.12 * self.w["externals"]:
+            # an external call as the RIGHT operand / as an argument of another call: other values are already
+            # on the evaluation stack when its arguments are popped
+            e = r.choice(self.externals)
+            args = [self.int_expr(0, temps) for _ in range(e["arity"])]
+            if r.random() < 0.3:
+                e2 = r.choice(self.externals)
+                args[-1] = "%s(%s)" % (e2["name"], ", ".join(str(r.randint(1, 9)) for _ in range(e2["arity"])))
+            call = "%s(%s)" % (e["name"], ", ".join(args))
+            return "(%s %s %s)" % (a, r.choice(["+", "-"]), call)
         if c < 0.35:
             return "(%s + %s)" % (a, b)
         if c < 0.55:
@@ -260,10 +270,10 @@ class Gen:
                 e = r.choice(self.externals)
                 call = "%s(%s)" % (e["name"], ", ".join(str(r.randint(0, 5)) for _ in range(e["arity"])))
                 if self.w["ext_in_strings"] and ind == 0 and r.random() < 0.5 * self.w["ext_in_strings"]:
-                    t = "sx%d" % (len(temps) + 1)
+                    self.sx_n = getattr(self, "sx_n", 0) + 1
+                    t = "sx%d" % self.sx_n
                     out.append(pad + '~ temp %s = "%s {%s}"' % (t, self.word(), call))
                     out.append(pad + "%s {%s}" % (self.word(), t))
-                    temps = tuple(temps) + (t,)
                 elif self.w["ext_markers"]:
                     # the call site directly follows a marker line; the marker id is the first argument
                     self.marker_n = getattr(self, "marker_n", 700000) + 1
@@ -425,9 +435,9 @@ class Gen:
         # externals
         if w["externals"]:
             for i in range(r.randint(1, 2)):
-                ar = r.randint(1, 2)
+                ar = r.randint(1, 3) if not w["ext_markers"] else r.randint(1, 2)
                 self.externals.append(dict(name="ext%d" % i, arity=ar,
-                                           spec=dict(impl="lin", coef=[10, 1][:ar], add=100 if ar == 1 else 0)))
+                                           spec=dict(impl="lin", coef=[100, 10, 1][3 - ar:], add=100 if ar == 1 else 0)))
                 L.append("EXTERNAL ext%d(%s)" % (i, ", ".join("abc"[k] for k in range(ar))))
                 if w["ext_counters"]:
                     L.append("VAR cnt_ext%d = 0" % i)
@@ -566,9 +576,11 @@ class Gen:
             if w["ext_counters"]:
                 L.append("~ cnt_%s = cnt_%s + 1" % (e["name"], e["name"]))
             if e["arity"] == 1:
-                L.append("~ return a * 10 + 100")
-            else:
+                L.append("~ return a + 100")
+            elif e["arity"] == 2:
                 L.append("~ return a * 10 + b")
+            else:
+                L.append("~ return a * 100 + b * 10 + c")
         return dict(
             src="\n".join(L) + "\n",
             globals=self.ints + self.bools + self.strs + [v for v, _ in self.lists],
